@@ -137,7 +137,7 @@ def gen_cases(ctx):
 
 
 def run(ctx):
-    cw.standard_check(ctx, gen_cases(ctx), PROP, KINDS, "runner.counts", make_monitor(ctx), extra=totals_vs_model)
+    cw.standard_check(ctx, cw.corpus_cases(PROP) + gen_cases(ctx), PROP, KINDS, "runner.counts", make_monitor(ctx), extra=totals_vs_model)
 
 
 def _tiny_world(kind):
